@@ -339,7 +339,7 @@ class Run:
         """every floating tensor of obj has the working dtype; float64: no float32 granularity"""
         if obj is None:
             return
-        wrong, rounded = {}, {}
+        wrong, rounded, scalars = {}, {}, set()
         for path, t, owner in tensors_of(obj):
             if not is_float(t):
                 continue
@@ -350,9 +350,14 @@ class Run:
                 wrong[leaf] = str(t.dtype).replace("torch.", "")
             elif granular and self.dtype == F64 and f32_granular(t):
                 rounded[leaf] = [x for x in t.detach().reshape(-1).tolist() if x != 0 and x != round(x)][:2]
+                if t.numel() == 1:
+                    scalars.add(leaf)
         if rounded:
             base = re.sub(r"\([^()]*\)$", "", self.name(stage))
-            self.findings.append((f"C12|float32-rounded|{base}|{'+'.join(sorted(rounded))}",
+            # a single number can be a float32 number by chance (1e8 is one): scalars do not enter the signature when
+            # whole arrays are affected
+            named = sorted(k for k in rounded if k not in scalars) or sorted(rounded)
+            self.findings.append((f"C12|float32-rounded|{base}|{'+'.join(named)}",
                                   f"{self.name(stage)} in float64: the values of {sorted(rounded)} are float32 numbers "
                                   f"(e.g. {next(iter(rounded.values()))}): a float32 intermediate rounded them"))
         if wrong:
